@@ -32,6 +32,9 @@ MSG_SETS = [
     [["raw", "01"], ["orig", 6, 4, 1, 1], ["raw", "02"], ["proxy_put_response", "NO_ERROR", "DATA_COMPLETE", "FILE_RETAINED"], ["raw", "03"]],
     [["proxy_put_request", 3, "remote/src.bin", "local/dst.bin"]],
     [["proxy_put_request", 3, "a", "b"], ["orig", 1, 2, 2, 2]],
+    # binary messages (not UTF-8), also longer than the reserved prefix, next to a reserved one
+    [["raw", "80818283848586"], ["raw", "fffefdfcfb"]],
+    [["raw", "c3283132333435"], ["orig", 5, 2, 7, 2], ["raw", "e28228e28228"]],
 ]
 
 
